@@ -13,9 +13,11 @@
                  are declared without bounds (a bounded fluent without value violates its bound constraint in the model
                  of the documented semantics; the injected default need not)
      action_ok   no companion is mentioned; no tracked fluent is read inside a quantifier; effect target arguments do
-                 not read tracked fluents; an effect that is conditional or has forall variables neither targets a
-                 tracked fluent nor reads one in its value (and, with forall variables, in its condition)
-                 -> without it: C06_LA_uinr_conditional_assignment_refuted (here), C07_LA_uinr_conditional_read_refuted
+                 not read tracked fluents; the value of a conditional effect reads no tracked fluent and a conditional
+                 effect on a tracked fluent is an assignment; an effect with forall variables (outside the compiler's
+                 supported kind) touches no tracked fluent
+                 -> without it: C07_LA_uinr_conditional_read_refuted, C07_LA_uinr_conditional_increase_refuted
+                 (the former C06_LA_uinr_conditional_assignment_refuted was repaired in /repo: c019d78)
      goals uq    as for preconditions;   state invariants mention no tracked fluent (the compiler does not touch
                  trajectory constraints; they are outside its supported kind anyway).
    No Simplifier hypothesis: the compiler calls none. *)
@@ -73,19 +75,21 @@ Theorem C06_LA_uinr_init_related :
 Proof. exact uinr_init_rel. Qed.
 Print Assumptions C06_LA_uinr_init_related.
 
-(* without [action_ok]: `a: if c then x := 5`, `b: pre x = 5, g := true`, x without value, c false.  The compiled a sets
-   is_value_defined_x although the assignment does not fire; [a; b] is then valid for the compiled problem (x holds the
-   default 5 = the smallest assigned constant) and invalid for the original.  The real compiler and the real
-   SequentialPlanValidator show exactly this (finding C06-uinr-conditional-assignment-marks-defined). *)
-Theorem C06_LA_uinr_conditional_assignment_refuted :
-  exists (umap : list (N * N)) (P : problem) (s s' : state) (pi : list (N * list value)),
-    umap_ok umap P = true /\ uinr_ok umap P = false /\ uinr_rel umap s s' /\
-    valid_plan false (uinr_compile umap P) s' pi = true /\ valid_plan false P s pi = false.
-Proof.
-  exists UinrW.um, UinrW.P1, UinrW.s0, (uinr_init UinrW.um UinrW.dflt UinrW.s0), UinrW.plan1.
-  exact uinr_cond_assign_unsound.
-Qed.
-Print Assumptions C06_LA_uinr_conditional_assignment_refuted.
+(* `a: if c then x := 5`, `b: pre x = 5, g := true`, x without value: before fix c019d78 the compiled a set
+   is_value_defined_x although the assignment did not fire ([a; b] valid compiled, invalid originally: the former
+   C06_LA_uinr_conditional_assignment_refuted, confirmed on the real code).  After the fix the tracker effect carries the
+   condition, the restriction "a conditional effect does not target a tracked fluent" is dropped from [action_ok] (what
+   remains: its value reads no tracked fluent and it is an assignment), and this problem is an instance of
+   C06_LA_uinr_valid_plan: *)
+Example C06_LA_uinr_conditional_assignment :
+  uinr_ok UinrW.um UinrW.P1 = true /\
+  uinr_rel UinrW.um UinrW.s0 (uinr_init UinrW.um UinrW.dflt UinrW.s0) /\
+  valid_plan false (uinr_compile UinrW.um UinrW.P1) (uinr_init UinrW.um UinrW.dflt UinrW.s0) UinrW.plan1 = false /\
+  valid_plan false UinrW.P1 UinrW.s0 UinrW.plan1 = false /\
+  valid_plan false (uinr_compile UinrW.um UinrW.P1) (uinr_init UinrW.um UinrW.dflt UinrW.s0c) UinrW.plan1 = true /\
+  valid_plan false UinrW.P1 UinrW.s0c UinrW.plan1 = true.
+Proof. exact uinr_cond_assign_ok. Qed.
+Print Assumptions C06_LA_uinr_conditional_assignment.
 
 Example C06_LA_uinr_nonvacuous :
   uinr_ok UinrW.um UinrW.P3 = true /\
